@@ -59,16 +59,29 @@ ASAN_FLAGS = ["-O1", "-g", "-fsanitize=address,undefined", "-fno-sanitize-recove
               "-UNDEBUG", "-ftrivial-auto-var-init=pattern"]
 
 
+import threading
+_build_locks = {}
+_build_locks_guard = threading.Lock()
+
+
 def build(name, source, defines=(), variant="plain", extra=()):
     """Compile one harness translation unit against /repo's working tree; cached by content hash."""
     flags = list(BASE_FLAGS) + (ASAN_FLAGS if variant == "asan" else PLAIN_FLAGS) + ["-D" + d for d in defines] + list(extra)
     key = sha(tree_hash(os.path.join(REPO, "src")), tree_hash(HARNESS), name, source, " ".join(flags))
     outdir = os.path.join(CACHE, "bin", key)
     out = os.path.join(outdir, name)
+    with _build_locks_guard:
+        lock = _build_locks.setdefault(key, threading.Lock())
+    with lock:
+        return _build_locked(name, source, flags, outdir, out)
+
+
+def _build_locked(name, source, flags, outdir, out):
     if os.path.exists(out):
         return out, None
     os.makedirs(outdir, exist_ok=True)
-    cmd = ["g++"] + flags + [os.path.join(HARNESS, source), "-o", out + ".tmp"]
+    tmp = "%s.tmp.%d.%d" % (out, os.getpid(), threading.get_ident())
+    cmd = ["g++"] + flags + [os.path.join(HARNESS, source), "-o", tmp]
     t0 = time.time()
     p = subprocess.run(cmd, stdout=subprocess.PIPE, stderr=subprocess.STDOUT, text=True)
     if p.returncode != 0:
@@ -76,7 +89,7 @@ def build(name, source, defines=(), variant="plain", extra=()):
         with open(logp, "w") as f:
             f.write(" ".join(cmd) + "\n" + p.stdout)
         return None, logp
-    os.replace(out + ".tmp", out)
+    os.replace(tmp, out)
     return out, None
 
 
